@@ -5,6 +5,7 @@ import (
 	"encoding/hex"
 	"encoding/json"
 	"fmt"
+	"github.com/verily-src/fhirpath-go/fhirpath/verifh/ftab"
 	"os"
 	"os/exec"
 	"strings"
@@ -14,7 +15,6 @@ import (
 	"github.com/verily-src/fhirpath-go/fhirpath/compopts"
 	"github.com/verily-src/fhirpath-go/fhirpath/evalopts"
 	"github.com/verily-src/fhirpath-go/fhirpath/internal/expr"
-	"github.com/verily-src/fhirpath-go/fhirpath/internal/funcs"
 	"github.com/verily-src/fhirpath-go/fhirpath/patch"
 	"github.com/verily-src/fhirpath-go/fhirpath/system"
 	"github.com/verily-src/fhirpath-go/fhirpath/verifh/core"
@@ -104,8 +104,8 @@ func c04State() string {
 		e, err := fhirpath.Compile(probe)
 		sb.WriteString(probe + "=>" + c04Outcome(e, err) + "\n")
 	}
-	sb.WriteString(tableSnapshot(funcs.Clone()))
-	sb.WriteString("|exp|" + tableSnapshot(funcs.AddExperimentalFuncs(funcs.Clone())))
+	sb.WriteString(ftab.Snapshot(ftab.Table(false)))
+	sb.WriteString("|exp|" + ftab.Snapshot(ftab.Table(true)))
 	return sb.String()
 }
 
@@ -134,7 +134,7 @@ var c04TZPrograms = []string{
 
 var c04Instants = []time.Time{
 	time.Date(2021, 3, 4, 5, 6, 7, 89000000, time.UTC),
-	{},                                        // the zero time is an instant like any other
+	{}, // the zero time is an instant like any other
 	time.Time{}.In(time.FixedZone("", 19800)), // ... in any zone
 	time.Date(2021, 3, 4, 5, 6, 7, 89000000, time.FixedZone("", 3600)),
 	time.Date(2020, 2, 29, 23, 59, 59, 999000000, time.FixedZone("", -11*3600)),
